@@ -182,6 +182,10 @@ def run_history(ctx: RunCtx, U) -> None:
     log.add("objects", [(c["deg"], c["via_lp"], c["where"]) for c in cms], [L["where"] for L in lps])
     hist: list = []
     weights = [0.0] + [WEIGHTS[a[0]] / sum(1 for b in ALPHABET if b[0] == a[0]) for a in ALPHABET]
+    if ds.flag("cm.map_focused_history", 0.3):
+        # histories made of map operations (and degree changes) only: the map service has the densest bookkeeping
+        weights = [0.0] + [(w if a[0].startswith("map_") else (0.3 * w if a[0] in ("setdeg", "save_load") else 0.0)) for a, w in zip(ALPHABET, weights[1:])]
+        ctx.probe("map_focused_history")
     max_len = 12 if ctx.tier == "quick" else 25
     mutated = False
     while len(hist) < max_len:
@@ -274,22 +278,27 @@ def run_history(ctx: RunCtx, U) -> None:
                     if not before.failed and (after is None or after.failed or not eq(before.value, after.value)):
                         raise Violation("C20/map/roundtrip-section", f"the stored {sec} section is lost or changed by save/load | history: {hist}")
                 log.add("op", entry, "ok")
+                # continue the history on the reloaded map: it carries its own (unpickled) manifold, so it no longer follows this handle's degree
+                c["map"] = {"real": out.value, "last": {s_: v for s_, v in m["last"].items() if v[1] == c["deg"]}, "strategy": m["strategy"],
+                            "fixed_deg": m.get("fixed_deg") or c["deg"]}
                 continue
+            mdeg = m.get("fixed_deg") or c["deg"]
+            cview = dict(c, deg=mdeg)
             if k == "map_compute":
                 sec, oi = SECTIONS[op[1]], op[2]
                 r_out = attempt(lambda: map_rows(m["real"].compute(section_coord=sec, options=_mapopts(oi))))
-                t_out = twin_memo(("map", c["where"], c["deg"], sec, oi, m["strategy"]), lambda: attempt(
-                    lambda: map_rows(_twin_map(U, c, m["strategy"]).compute(section_coord=sec, options=_mapopts(oi)))))
+                t_out = twin_memo(("map", c["where"], mdeg, sec, oi, m["strategy"]), lambda: attempt(
+                    lambda: map_rows(_twin_map(U, cview, m["strategy"]).compute(section_coord=sec, options=_mapopts(oi)))))
                 log.add("op", entry, r_out.kind(), digest(r_out.value) if not r_out.failed else None)
                 if r_out.failed != t_out.failed:
                     raise Violation("C20/map/outcome-compute", f"map.compute({sec}, {MAPOPTS[oi]}): {r_out.kind()} ({r_out.exc}) on the long-lived map, "
-                                                               f"{t_out.kind()} on a fresh map of a fresh degree-{c['deg']} manifold | history: {hist}")
+                                                               f"{t_out.kind()} on a fresh map of a fresh degree-{mdeg} manifold | history: {hist}")
                 if not r_out.failed and not eq(r_out.value, t_out.value):
                     raise Violation("C20/map/value-compute", f"map.compute(section={sec}, n_iter={MAPOPTS[oi][0]}, dt={MAPOPTS[oi][1]}) on the long-lived map of a "
-                                                             f"degree-{c['deg']} manifold returned {len(r_out.value['states'])} rows (first {brief(r_out.value['states'][:1])}); "
+                                                             f"degree-{mdeg} manifold returned {len(r_out.value['states'])} rows (first {brief(r_out.value['states'][:1])}); "
                                                              f"a fresh map of a fresh manifold returns {len(t_out.value['states'])} rows "
                                                              f"(first {brief(t_out.value['states'][:1])}) | history: {hist}")
-                m["last"][sec] = (oi, c["deg"])
+                m["last"][sec] = (oi, mdeg)
                 ctx.probe("map_compared")
             else:  # map_points / map_states: stored result of the last compute for THAT section (two-sided)
                 sec = SECTIONS[op[1]]
@@ -304,13 +313,13 @@ def run_history(ctx: RunCtx, U) -> None:
                 if r_out.failed:
                     ctx.probe("map_points_unset")
                     continue
-                t_out = twin_memo(("map", c["where"], c["deg"], sec, oi, m["strategy"]), lambda: attempt(
-                    lambda: map_rows(_twin_map(U, c, m["strategy"]).compute(section_coord=sec, options=_mapopts(oi)))))
+                t_out = twin_memo(("map", c["where"], mdeg, sec, oi, m["strategy"]), lambda: attempt(
+                    lambda: map_rows(_twin_map(U, cview, m["strategy"]).compute(section_coord=sec, options=_mapopts(oi)))))
                 got = r_out.value
                 got = got[np.lexsort(tuple(got.T[::-1]))] if len(got) else got
                 exp = t_out.value["points"] if k == "map_points" else t_out.value["states"]
                 exp = exp[np.lexsort(tuple(exp.T[::-1]))] if len(exp) else exp
-                if (t_out.failed or not eq(got, exp)) and deg_then != c["deg"] and known_active("C20-K2-stored-map-section-survives-degree-change"):
+                if (t_out.failed or not eq(got, exp)) and deg_then != mdeg and known_active("C20-K2-stored-map-section-survives-degree-change"):
                     # K2: exactly the section computed at the earlier degree
                     old = twin_memo(("map", c["where"], deg_then, sec, oi, m["strategy"]), lambda: attempt(
                         lambda: map_rows(_twin_map(U, dict(c, deg=deg_then), m["strategy"]).compute(section_coord=sec, options=_mapopts(oi)))))
@@ -320,7 +329,7 @@ def run_history(ctx: RunCtx, U) -> None:
                         continue
                 if t_out.failed or not eq(got, exp):
                     raise Violation("C20/map/stored-points", f"map.get_points({sec}) holds {len(got)} points that are not the result of the last compute "
-                                                             f"(n_iter={MAPOPTS[oi][0]}, dt={MAPOPTS[oi][1]}) for the manifold's current degree {c['deg']} "
+                                                             f"(n_iter={MAPOPTS[oi][0]}, dt={MAPOPTS[oi][1]}) for the manifold's current degree {mdeg} "
                                                              f"(computed when the degree was {deg_then}) | history: {hist}")
                 log.add("op", entry, "stored", digest(got))
                 ctx.probe("stored_result_compared")
@@ -380,8 +389,8 @@ def _hbrief(v):
 def enumeration(max_len: int):
     import itertools
     idx = [ALPHABET.index(op) + 1 for op in REDUCED]
-    # prefix: machine=cm (1), lp[0].point=L1 (0), no second libration point (0), n_objects=1 (0), degree index 0 (=4), via_lp in {0,1}
+    # prefix: machine=cm (1), lp[0].point=L1 (0), no second libration point (0), n_objects=1 (0), degree index 0 (=4), via_lp in {0,1}, not map-focused (0)
     for via in (0, 1):
         for L in range(1, max_len + 1):
             for seq in itertools.product(idx, repeat=L):
-                yield [1, 0, 0, 0, 0, via] + list(seq) + [0]
+                yield [1, 0, 0, 0, 0, via, 0] + list(seq) + [0]
